@@ -50,3 +50,24 @@ Definition C07_thermostat_partial_statement : Prop :=
 Definition C07_thermostat_full_statement : Prop :=
   forall t per (slots : list (option pvals)), List.length slots = per ->
     thermostat_offset_ok per (handle_thermostat t [] (Spec.C05p.view_slots 0 slots)).
+
+(* ---------- schedules: routing of a switch / parameter to its schedule, and the dataset the request is built from ---------- *)
+From PV Require Import Model.SchedRoute Model.SchedData.
+
+(* every position j of the schedule-parameter table is routed to schedule j / 2 (switch at 2i, parameter at 2i + 1),
+   although some schedule names are prefixes of others (heating / heating_circulation, ...) *)
+Definition route_ok (j : nat) : bool :=
+  match nth_error schedule_params j with
+  | Some d => match routed_index (pd_name d) with Some i => Nat.eqb i (Nat.div j 2) | None => false end
+  | None => false
+  end.
+Definition C07_schedule_route_statement : Prop :=
+  forall j, (j < List.length schedule_params)%nat -> route_ok j = true.
+(* ... and the table has exactly two entries per schedule, named after it *)
+Definition C07_schedule_table_statement : Prop :=
+  map pd_name schedule_params =
+  flat_map (fun n => [(n ++ "_schedule_switch")%string; (n ++ "_schedule_parameter")%string]) schedules.
+
+(* every schedule a response has ever listed (and whose switch / parameter therefore exist) is in the dataset *)
+Definition C07_schedules_kept_statement : Prop :=
+  forall responses r i, In r responses -> has i r = true -> has i (dataset true responses) = true.
